@@ -41,7 +41,7 @@ COMPONENTS = {
     "stub": ["sampler callbacks", "forced draw outcomes", "interference"],
 }
 ASSUMPTIONS = [
-    "the envelope/rule-of-three refinement is asserted for sources without easy samples (with easy samples 'rate exactly 0 or 1' and the code's n diverge); shapes, NaN-freeness, ordering and range are asserted always",
+    "with easy samples 'rate exactly 0 or 1' and the code's trigger/n diverge: every combination of n in {scored, all} and trigger in {exact, library's} is admitted by the envelope refinement; rectangles whose bound is within 1e-9 of a point may or may not count as covering it",
     "Scores.fnr/fpr/threshold_at_* evaluated on recorded resamples are trusted components of the reference (they are the subject of C01-C03, not claimed here)",
     "a point's own rectangle is accepted in the envelope whether or not it covers the point",
     "fixed_width_band_ci is exercised only with supports spanning the whole curve (nb_points or all scores)",
